@@ -8,9 +8,10 @@
 
    Preconditions, all of them invariants of reachable worlds (tie_world_* discharge them for every history):
      - the assigned names are non-empty (tie_ns_is_available and what uses it).  Without it the model and the
-       code both fail (IndexError = Err OtherError, or the assert) but WHICH error comes first depends on the
-       order in which the reserved names are visited, which the model fixes arbitrarily (assigned ++ later
-       queries) and the code by sorting; with it `reserved_name[part_idx]` never leaves the tuple.
+       code agree on the boolean or both fail (tie_ns_is_available_sim: IndexError = Err OtherError, or the assert)
+       but WHICH error comes first depends on the order in which the reserved names are visited, which the model
+       fixes arbitrarily (assigned ++ later queries) and the code by sorting; with it `reserved_name[part_idx]`
+       never leaves the tuple.  tie_ns_is_available_ord is the unconditional equality behind both.
      - names handed over as Name objects (the names of an anonymous window) are well-formed (wf_name: non-empty,
        made of non-empty strings / non-negative ints): the code validates them again (MemoryMap.Name(name) for
        name in names), the model does not.
@@ -76,21 +77,21 @@ Definition order_ok (order : list name -> list name) : Prop := forall l x, In x 
 Lemma ns_has_name_in d k : ns_has d k = name_in k d.
 Proof. reflexivity. Qed.
 
-(* is_available: same result, same exception, for all assigned lists (of non-empty names), all raw queries,
-   with and without a `reasons` list, whatever the order `sorted` produces *)
-Theorem tie_ns_is_available : forall order, order_ok order -> forall assigned raws reasons,
-  (forall a, In a assigned -> a <> []) ->
-  gen_ns_is_available order assigned raws reasons = (let! qs := mapR mk_name raws in is_available assigned qs).
+(* is_available, unconditionally (any assigned list, any raw queries, any `order` function, with and without a
+   `reasons` list): the regenerated code is the model's is_available with each queried name checked against
+   `order (assigned ++ later queries)` instead of `assigned ++ later queries` (is_available_ord) *)
+Theorem tie_ns_is_available_ord : forall order assigned raws reasons,
+  gen_ns_is_available order assigned raws reasons =
+  (let! qs := mapR mk_name raws in is_available_ord order assigned qs).
 Proof.
-  intros order Hord assigned raws reasons Hne. unfold gen_ns_is_available.
+  intros order assigned raws reasons. unfold gen_ns_is_available.
   match goal with |- context [mapR ?f raws] => rewrite (mapR_ext f mk_name) end.
   2: { intros x. rewrite tie_name_new. apply bind_ret. }
   destruct (mapR mk_name raws) as [qs|e] eqn:Hqs; cbn [bind]; [|reflexivity]. cbv zeta.
-  assert (Hq : forall q, In q qs -> q <> []).
-  { apply Forall_forall. eapply mapR_ok_Forall; [|exact Hqs]. intros x y. apply mk_name_nonempty. }
   match goal with |- context [for_each ?b (py_enumerate qs) ?c] =>
-    rewrite (outer_loop order Hord assigned Hne b qs) end.
-  - destruct (is_available assigned qs) as [b|e]; cbn [after_loop orb]; [|reflexivity]. rewrite ?negb_involutive. reflexivity.
+    rewrite (outer_loop order assigned b qs) end.
+  - destruct (is_available_ord order assigned qs) as [b|e]; cbn [after_loop orb]; [|reflexivity].
+    rewrite ?negb_involutive. reflexivity.
   - (* body of the loop over the queried names *)
     intros pre nm rest c Hsplit. cbv beta iota zeta.
     repeat match goal with |- context [py_slice_from qs ?e] =>
@@ -110,9 +111,32 @@ Proof.
         rewrite ?ns_has_name_in. unfold ns_get, dict_get. fold (ns_has assigned rs). rewrite ?ns_has_name_in.
         destruct (py_index rs idx) as [r|e]; cbn [bind]; [|reflexivity].
         destruct reasons; split_ifs.
-  - exact Hq.
+Qed.
+Print Assumptions tie_ns_is_available_ord.
+
+(* is_available: same result, same exception as the model, for all assigned lists of non-empty names, all raw
+   queries, whatever order `sorted` produces *)
+Theorem tie_ns_is_available : forall order, order_ok order -> forall assigned raws reasons,
+  (forall a, In a assigned -> a <> []) ->
+  gen_ns_is_available order assigned raws reasons = (let! qs := mapR mk_name raws in is_available assigned qs).
+Proof.
+  intros order Hord assigned raws reasons Hne. rewrite tie_ns_is_available_ord.
+  destruct (mapR mk_name raws) as [qs|e] eqn:Hqs; cbn [bind]; [|reflexivity].
+  apply is_available_ord_eq; [exact Hord|exact Hne|].
+  apply Forall_forall. eapply mapR_ok_Forall; [|exact Hqs]. intros x y. apply mk_name_nonempty.
 Qed.
 Print Assumptions tie_ns_is_available.
+
+(* ... and for arbitrary assigned lists: the same boolean, or an exception on both sides *)
+Theorem tie_ns_is_available_sim : forall order, order_ok order -> forall assigned raws reasons,
+  res_sim (gen_ns_is_available order assigned raws reasons) (let! qs := mapR mk_name raws in is_available assigned qs).
+Proof.
+  intros order Hord assigned raws reasons. rewrite tie_ns_is_available_ord.
+  destruct (mapR mk_name raws) as [qs|e] eqn:Hqs; cbn [bind]; [|exact I].
+  apply is_available_ord_sim; [exact Hord|].
+  apply Forall_forall. eapply mapR_ok_Forall; [|exact Hqs]. intros x y. apply mk_name_nonempty.
+Qed.
+Print Assumptions tie_ns_is_available_sim.
 
 (* the same for queries that are Name objects already *)
 Corollary tie_ns_is_available_names : forall order, order_ok order -> forall assigned qs reasons,
